@@ -289,3 +289,33 @@ def root_fn(path):
     """the named function a (possibly nested) closure/coroutine body belongs to"""
     i = path.find("::{closure")
     return path if i < 0 else path[:i]
+
+
+ASYNC_WRITE = ("tokio::io::util::async_write_ext::AsyncWriteExt::write_all", "tokio::io::util::async_write_ext::AsyncWriteExt::write",
+               "tokio::io::util::async_write_ext::AsyncWriteExt::write_all_buf")
+ASYNC_FLUSH = ("tokio::io::util::async_write_ext::AsyncWriteExt::flush", "tokio::fs::file::File::sync_all",
+               "tokio::fs::file::File::sync_data", "tokio::io::util::async_write_ext::AsyncWriteExt::shutdown")
+
+
+def async_write_flush_rule(chk, ctx, rule, sinks, what):
+    """tokio::fs::File buffers a write in a background task: write_all(..).await returning Ok does not
+    mean the bytes were written, the error of the LAST write only surfaces on flush()/sync (into_std()
+    discards it). So between buffered async writes and the point where the file is published
+    (persist / rename / Ok) a successful flush must lie on every path."""
+    writes = [(bb, t) for bb, t in ctx.calls(*ASYNC_WRITE)
+              if any("tokio::fs::file::File" in (ctx.body.locals[a.place.local]["ty"] if a.place is not None else "")
+                     or any(is_call(o, "tokio::fs::file::File::from_std", "tokio::fs::file::File::create", "tokio::fs::file::File::open",
+                                    "tokio::fs::open_options::OpenOptions::open") for o in deep_origins(ctx, a, 3))
+                     for a in t.args[:1])]
+    if not writes:
+        return 0
+    flush = []
+    for bb, t in ctx.calls(*ASYNC_FLUSH):
+        flush.extend(ctx.track_call(bb).pos_edges(0))
+    p = ctx.cfg.witness_path(sinks, flush, starts=[bb for bb, _ in writes])
+    chk.require(p is None, rule, ctx.fn, "buffered-write-flushed-before-" + what,
+                "bytes are written through tokio::fs::File (buffered, the write runs in a background task) and the "
+                "file is then published (%s) on a path without a successful flush()/sync_all(): a failing final "
+                "write (disk full, I/O error) is swallowed and a truncated file is published as if complete" % what,
+                ctx.site(writes[0][0]), path=ctx.describe_path(p))
+    return len(writes)
